@@ -45,6 +45,8 @@ func RunHistory(t *rapid.T, prof *Profile, mons ...Monitor) {
 			w.Flags["initial-height>1"] = true
 		} else if strings.HasPrefix(n, "legacy-batches{") {
 			w.Flags["legacy-genesis-batches"] = true
+		} else if strings.HasPrefix(n, "data-genesis{") {
+			w.Flags["data-genesis"] = true
 		} else if strings.HasPrefix(n, "legacy-exponent-basket{") {
 			w.Flags["legacy-exponent-basket"] = true
 		} else if strings.HasPrefix(n, "legacy-baskets{") {
